@@ -41,7 +41,7 @@ CHECKS = {
   "thorough: all f32 of [0,1] x 14 characteristics through the real round trip (the check is the property); quick: the C03 stratum. No reference model.",
   "None beyond the harness."),
  "C11": (E2, "exhaustive enumeration of image sizes x subsamplings x paddings with metamorphic oracles (1x1-image equality, layout independence)",
-  "Sizes 1..=64 (quick: 1..12,31..33,63,64) x 6 subsamplings x u8/u16 x 2 metadata sets: whole-image conversion vs the conversion of every pixel as a 1x1 image (bit-identical), re-run, by-value vs by-reference, same samples under other paddings/strides/poisons (0..=32 per axis at 4x4 and 8x8), borrowed sources compared with a clone; encodes: luma equals 4:4:4 luma, chroma from its own block, plane sizes.",
+  "Sizes 1..=64 (quick: 1..12,31..33,63,64) x 6 subsamplings x u8/u16 x 2 metadata sets: whole-image conversion vs the conversion of every pixel as a 1x1 image (bit-identical), re-run, by-value vs by-reference, same samples under other paddings/strides/poisons (0..=32 per axis at 4x4 and 8x8), borrowed sources compared with a clone; encodes: luma equals 4:4:4 luma, chroma from its own block, plane sizes. Plus call-history independence: all histories [a,b] and [a,b,a] over a 1,560 / ~4,700-operation alphabet (10 conversions x metadata varying every field x image variants), each on a fresh thread, every result compared with the same call made first.",
   "Position-coded content distinguishes neighbours/rows/columns; no expected values are used."),
  "C12": (E2, "exhaustive small-box product + deviation-bounded enumeration of frame geometries vs a reference acceptance predicate",
   "Full product of the small geometry box, every well-formed base with every single and pair of deviations, one out-of-range sample at EVERY raw buffer position (visible and padding) for depths 8..15, and all (len,w,h) in 0..=40 cubed for the four float constructors: accept <=> predicate, the error variant must name a violated condition, accepted images are verbatim.",
@@ -53,7 +53,7 @@ CHECKS = {
   "Every (matrix, primaries, transfer) triple without Unspecified x {u8/8,u16/10} x {limited,full} x 5 forward/reverse conversion pairs: never panics, errors are Unsupported* and name an offending field (replacing only that field removes the error), support is symmetric, single-stage pairs agree on the error, supported sets succeed, YUV<->RGB is bit-identical across all 234 label pairs. The check equals the property.",
   "'names an offending field' decided metamorphically; gamma<->linear error equality compared when the primaries are supported."),
  "C15": (E1, "exhaustive enumeration of threshold sizes x all matrices x every subset of Unspecified fields vs a reference transcription of the mpv rule, plus relational content check",
-  "162 sizes x 240 configs for resolution purity and equality with the documented rule; all 19x14 label pairs for Rgb; for every conversion given Unspecified fields that succeeds, the stored config must be the documented resolution and decoding the output with its own config must reproduce the input within the C09 budget.",
+  "162 sizes x 240 configs for resolution purity and equality with the documented rule; all 19x14 label pairs for Rgb; for every conversion given Unspecified fields that succeeds, the stored config must be the documented resolution and decoding the output with its own config must reproduce the input within the C09 budget (in codes after re-encoding; for gamma-RGB inputs also literally in the RGB domain).",
   "Sizes bounded to the listed threshold neighbourhoods."),
  "C16": (E1, "complete enumeration of every grey code at every depth and 2^20 linear grey levels through every stage",
   "All 130,816 luma codes x 140 configs (spread, exact black, white), 2^20+ grey levels through 14 curves x 2 directions, 22 primaries directions, XYB and HSL.",
